@@ -71,6 +71,12 @@ def c40_keys(b):
     for f in b["fan"]:
         ks.add((f["m"], f["res"], min(len(f["c"]), 2), f["narrow"]) + base)
         ks.add(("prop", f["m"], f["res"], f["prop"] == st["rRec"]["prop"], f["prop"] == st["pRec"]))
+        # which components of the proposal argument differ from the pending proposal the method is about
+        if f["m"] in ("qcPRec", "qcRRec", "timedConfirm", "stopTimed") and f["res"] != "Unauthorized":
+            pend = st["pRec"] if f["m"] == "qcPRec" else st["rRec"]["prop"]
+            if pend["delay"] != -2:
+                diff = tuple([i for i in range(3) if f["prop"]["rules"][i] != pend["rules"][i]] + (["delay"] if f["prop"]["delay"] != pend["delay"] else []))
+                ks.add(("diff", f["m"], f["res"], diff, st["rRec"]["kind"], tcls if f["m"] == "timedConfirm" else ""))
     return ks
 
 
@@ -113,6 +119,21 @@ def C40(ctx):
               "NoTimedRecoveriesFound", "TimedRecoveryDelayHasNotElapsed"):
         if not any(r == e for (_, r) in res):
             raise ToolError("vacuous cover: error class %s never expected" % e)
+    # every confirming / stopping method is refused for a proposal differing from the pending one in exactly one
+    # component - each of primary, recovery, confirmation rule and delay (part of every fan, never sampled)
+    def one_off(b, f):
+        s0 = (b["path"][-1] if b["path"] else b["init"])["st"]
+        pend = s0["pRec"] if f["m"] == "qcPRec" else s0["rRec"]["prop"]
+        if pend["delay"] == -2:
+            return None
+        d = [i for i in range(3) if f["prop"]["rules"][i] != pend["rules"][i]] + ([3] if f["prop"]["delay"] != pend["delay"] else [])
+        return d[0] if len(d) == 1 else None
+    one = collections.Counter((f["m"], one_off(b, f), f["res"]) for b in cover for f in b["fan"]
+                              if f["m"] in ("qcPRec", "qcRRec", "timedConfirm", "stopTimed") and f["res"] != "Unauthorized")
+    for m in ("qcPRec", "qcRRec", "timedConfirm", "stopTimed"):
+        for comp in range(4):
+            if one[(m, comp, "RecoveryProposalMismatch")] == 0:
+                raise ToolError("vacuous cover: %s never called with a proposal differing only in component %d" % (m, comp))
     narrow_states = [b for b in cover if any(f["narrow"] for f in b["fan"])]
     if not narrow_states:
         raise ToolError("vacuous cover: no timed confirmation by a caller without the recovery role")
@@ -171,7 +192,9 @@ def C40(ctx):
             "rule": "S: exhaustive TLC over 4 badges, %s, 2 proposals, creation delay none / 2 min, half-minute clock. G: (i) state "
                     "cover - every reachable abstract state (time abstracted to the distance to the timer and the half-minute phase) "
                     "reached by a shortest call sequence, then a fan of single calls from it: every method x proposal argument x "
-                    "{each single badge of a role that may call it, all badges that do not help, nobody for public methods} (%s); (ii) "
+                    "{each single badge of a role that may call it, all badges that do not help, nobody for public methods}, and every confirming / "
+                    "stopping method with the proposals that differ from the pending one in exactly one component (each rule -> another badge / "
+                    "DenyAll, delay + 1 / none) by every authorized caller (%s); (ii) "
                     "seeded random behaviours of 20 calls; every step executed as a real transaction on a LedgerSimulator with proofs of "
                     "exactly the caller's badges, comparing result class, decoded controller state, the three role rules and the vault "
                     "balance; distinct = distinct call sequences" % ("callers with <= 2 badges" if q else "all 16 callers",
@@ -206,11 +229,11 @@ def C44(ctx):
     core.build_harness(BIN)
     # S and G in the same TLC runs: the cover configurations also carry the invariants and action properties
     with ThreadPoolExecutor(max_workers=3) as ex:
-        f_cp = ex.submit(tlc, "Consensus", "MCGenConsensus", cfg="CoverPos", workers=3, coverage=False, timeout=1800,
+        f_cp = ex.submit(tlc, "Consensus", "MCGenConsensus", cfg="CoverPos", workers=3, coverage=False, timeout=1800, consts={"BaseMin": BASE_MIN_POS},
                          out_file=ctx.wpath("cp.out"))
         f_cn = ex.submit(tlc, "Consensus", "MCGenConsensus", cfg="CoverNeg", workers=3, coverage=False, timeout=1800,
                          out_file=ctx.wpath("cn.out"))
-        f_si = ex.submit(tlc, "Consensus", "MCGenConsensus", cfg="Sim", workers=1, coverage=False, timeout=1800,
+        f_si = ex.submit(tlc, "Consensus", "MCGenConsensus", cfg="Sim", workers=1, coverage=False, timeout=1800, consts={"BaseMin": BASE_MIN_POS},
                          simulate=150 if q else 3000, depth=16, seed=ctx.seed, out_file=ctx.wpath("si.out"))
         r_cp, r_cn, r_si = f_cp.result(), f_cn.result(), f_si.result()
     for f in ("cp.out", "cn.out", "si.out"):
@@ -237,6 +260,10 @@ def C44(ctx):
         raise ToolError("vacuous cover: both ways of setting the effective epoch start must occur")
     if not any(b["gets"]["Minute"] < 0 for b in neg) or not any(any(qq["exp"] for qq in b["queries"]) for b in pos):
         raise ToolError("vacuous cover: negative clock / true comparison missing")
+    # the instants at the edges of the i64 range / of the code's conversions are asked in EVERY state (never sampled)
+    for b in pos + neg + sim:
+        if len(b.get("farq", [])) != 180 or len({json.dumps(qq["big"]) for qq in b["farq"]}) != 18:
+            raise ToolError("far-instant clock queries incomplete: %d" % len(b.get("farq", [])))
     n_keys = n_cov = 0
     if q:
         # kept in full: (result x epoch change x way of setting the effective start) x (round below / equal / next / beyond
@@ -266,21 +293,27 @@ def C44(ctx):
     i = next(i for i, s in enumerate(bad[0]["path"]) if s["res"] == "ok")
     bad[0]["path"][i]["st"]["minute"] += 1
     bad[1]["queries"][0]["exp"] = not bad[1]["queries"][0]["exp"]
+    bad[1]["farq"][-1]["exp"] = not bad[1]["farq"][-1]["exp"]
     j = next(j for j, s in enumerate(bad[2]["path"]) if s["res"] != "ok")
     bad[2]["path"][j]["res"] = "ok"
     _, sm, _ = replay(ctx, "consensus", bad, "", "", ["base_min=%d" % BASE_MIN_POS], count=False)
     if len({o["b"] for o in sm}) != 3:
         raise ToolError("binding self-test of consensus: %d of 3 corrupted behaviours reported" % len({o["b"] for o in sm}))
+    want = {501, 501 + len(bad[1]["queries"]) + len(bad[1]["farq"]) - 1}
+    if not want <= {o["step"] for o in sm if o["b"] == 1 and o["mismatch"] == "compare_current_time"}:
+        raise ToolError("binding self-test of consensus: the corrupted near and far clock comparisons were not both reported")
     allb = pos + neg + sim
     distinct = len({json.dumps([b["init"], [(s["r"], s["t"]) for s in b["path"]]], sort_keys=True) for b in allb})
     return {"exhaustive": not q, "distinct_nontrivial": distinct, "cover_states_replayed": len(pos) + len(neg),
-            "fan_calls_replayed": sum(len(b["fan"]) for b in pos + neg), "clock_queries": sum(len(b["queries"]) + 2 for b in allb),
+            "fan_calls_replayed": sum(len(b["fan"]) for b in pos + neg), "clock_queries": sum(len(b["queries"]) + len(b["farq"]) + 2 for b in allb),
             "simulated_behaviours": len(sim), "ledger_results": results,
             "rule": "S: exhaustive TLC of next_round over rounds 0..5 x 11 / 13 timestamps around two minute boundaries (sub-second and "
                     "sub-minute offsets), once far from zero and once across zero (negative times, truncation toward zero), epoch change "
                     "condition min 2 / max 4 rounds / target 60 s, up to 3 epochs. G: every reachable state reached by a shortest call "
                     "sequence, from it every (round, timestamp) call valid or not (%s), and in it get_current_time + compare_current_time "
-                    "for instants minute +- {0, 1 s, 59 s, 60 s} and second +- 1, five operators, two precisions; plus seeded random "
+                    "for instants minute +- {0, 1 s, 59 s, 60 s} and second +- 1 and, decided on unbounded integers, for the 18 instants at "
+                    "the edges of the i64 range and of the conversions (i64 MIN / MIN+1 / MAX-1 / MAX, +-(i64 MAX / 1000) and one beyond, "
+                    "-2^31*60 - {61, 60, 59, 1, 0}, 0, 2^31*60 + {-1, 0, 1, 60}), five operators, two precisions; plus seeded random "
                     "sequences of 15 calls over 10 minutes. Calls are real next-round system transactions on a LedgerSimulator whose "
                     "genesis has that epoch change condition and initial time; compared: result class, epoch / round / milli / minute "
                     "clock / effective epoch start substates, EpochChangeEvent; distinct = distinct call sequences"
